@@ -48,6 +48,8 @@ def run(idx, rep, tier):
     core = frozenset(idx.core_modules())
     res = Resolver(idx, core)
     rules = res.rules_of("slogdet")
+    from sa.autorule import arity_obligations
+    arity_obligations(idx, rep, list(rules) + list(res.rules_of("logdet")))
     if not rules:
         rep.missing_anchor("dispatched function slogdet")
     for rule in rules:
